@@ -238,6 +238,44 @@ def make_string(lit: str):
     return h
 
 
+NFC_PIECES = ["e", "\u0301", "\u00e9", "e\u0301", "A", "\u030a", "\u00c5", "n", "\u0303", "\u00f1", "\u1100", "\u1161", "\uac00"]
+
+
+def make_string_nfc(spelling: str):
+    """
+    (p1 + p2) == p3 and != over string pieces that compose under Unicode normalisation: strings are compared in NFC
+    (the Specification's rule), wherever the operands come from (literal, escape, concatenation).
+    """
+    import unicodedata
+
+    n = len(NFC_PIECES)
+
+    def lit(s: str) -> str:
+        if spelling == "escape":
+            return "'" + "".join("\\u%04x" % ord(c) for c in s) + "'"
+        return '"' + s + '"'
+
+    def concrete(i: int, j: int, k: int) -> typing.Any:
+        a, b, c = NFC_PIECES[i], NFC_PIECES[j], NFC_PIECES[k]
+        want = unicodedata.normalize("NFC", a + b) == unicodedata.normalize("NFC", c)
+        for op, w in (("==", want), ("!=", not want)):
+            text = "(%s + %s) %s %s" % (lit(a), lit(b), op, lit(c))
+            ok, got = evaluate_real(text, {})
+            if not ok:
+                return "%s is undefined (%s)" % (text, type(got).__name__)
+            if bool(got.native_value) != w:
+                return "%s evaluates to %s, want %s" % (text, got, w)
+        return True
+
+    def h(i: int, j: int, k: int) -> typing.Any:
+        a, b, c = pick(i, 0, n - 1), pick(j, 0, n - 1), pick(k, 0, n - 1)
+        if a is None or b is None or c is None:
+            return None
+        return textio.native(concrete, a, b, c)
+
+    return h
+
+
 def make_sink(sink: str):
     """The evaluated value reaches constants, array capacities, @assert, @print and @extent unchanged."""
     import pydsdl
@@ -452,6 +490,13 @@ def conditions(tier: str, seed: int) -> typing.List[Cond]:
         for op in ("+", "<", "*") if thorough and "e-" not in lit else ("+",):
             out.append(Cond(PROP, "c04.literal", make_literal, {"lit": lit, "op": op}, {"a": int},
                             assumptions=["a unbounded"], witness={"a": 3}, budget=120.0, fmtstub=True))
+    for lit in STRINGS:
+        pass
+    for sp in ("literal", "escape"):
+        out.append(Cond(PROP, "c04.string-nfc", make_string_nfc, {"spelling": sp}, {"i": int, "j": int, "k": int}, kind="choice",
+                        assumptions=["(p1 + p2) ==/!= p3 over %d string pieces (combining marks, precomposed letters, Hangul "
+                                     "jamo), spelled literally or with \\u escapes" % len(NFC_PIECES)],
+                        witness={"i": 0, "j": 1, "k": 2}, budget=900.0, need_exhaust=True))
     for lit in STRINGS:
         out.append(Cond(PROP, "c04.string", make_string, {"lit": lit}, {"flag": bool}, kind="choice",
                         assumptions=["string literal spelling is scaffolding"], witness={"flag": True}, budget=120.0))
